@@ -91,6 +91,8 @@ let sop = function
   | SSleep ms -> Printf.sprintf "Sleep %d" (i ms)
   | SUserClose fd -> Printf.sprintf "UserClose %d" (i fd)
   | SUserCloexec (fd, on) -> Printf.sprintf "UserCloexec %d %s" (i fd) (b on)
+  | SUserOpen (fd, id, cx) -> Printf.sprintf "UserOpen %d ext%d %s" (i fd) (i id) (b cx)
+  | SUserRlimit n -> Printf.sprintf "UserRlimit %d" (i n)
 
 let op = function
   | ONew h -> Printf.sprintf "New %d" (i h)
